@@ -22,7 +22,7 @@ CHECKS = {
          'branch returns, strict flag plumbing and default, and no other file-reading call in the package.'),
    note=('Trusted: os.path.realpath/commonpath semantics, no file-system race between check and open. The behaviour '
          'of the os.path functions is not analysed; custom read_input_file overrides are outside the rule.'),
-   technique='AST def-use / guard analysis of the containment check (checked value = opened value), who-may-open rule over the package'),
+   technique='AST def-use / guard analysis of the containment check (checked value = opened value), syntax-directed guarded-value enumeration of the helper (path facts), cache-key completeness of stored reads, who-may-open rule over the package'),
  'C17': dict(level='proof', design='DESIGN.md section 5, C17',
    text=('Premises P1-P7 decided on class ParsingState: derived tables are functions of fields, the inherit guard of '
          'each _finalize_* tests every field its table transitively depends on (cache-key completeness), all fields '
@@ -49,7 +49,7 @@ CHECKS = {
    note=('Decides the necessary condition "no write to a shared object during a parse", not equality of parse '
          'results. Receiver typing of non-self stores uses the repository naming convention; user callbacks and '
          'custom parser classes are outside the rule.'),
-   technique='AST effect analysis (self/alias/class-level/shared-receiver stores), memo-idiom and cache-key completeness, freshness-depth analysis'),
+   technique='AST effect analysis (self/alias/class-level/shared-receiver stores), memo-idiom, cache-key completeness and injectivity, freshness-depth analysis'),
  'C12': dict(level='other', design='DESIGN.md section 5, C12',
    text=('Decides the gates through which comments, formula content and discarded constructs can reach the output: '
          'every return of comment_node_to_text / math_node_to_text / *_node_to_text is classified by the guard facts '
@@ -65,7 +65,7 @@ CHECKS = {
          'that errors are annotated from their own position under a guard that keeps position 0; so pos = T[i] + col - offset '
          'holds by construction for all strings and positions.'),
    note='Trusted: bisect_right semantics and that _pos_new_lines is the sorted table of line starts (value-level, not decided).',
-   technique='AST def-use / algebraic shape check of pos_to_lineno_colno, option forwarding by name, truthiness-of-position rule'),
+   technique='syntax-directed guarded-value enumeration of pos_to_lineno_colno and of the line-start generator (affine normal forms of substituted results per structural path), option forwarding by name, truthiness-of-position rule'),
  'C18': dict(level='other', design='DESIGN.md section 5, C18',
    text=('Per-site structural conditions of the splitting / key-value functions: chunk text and chunk position use the '
          'same slice bounds, parts end at the separator start, only top-level chars nodes are searched, the key-value '
@@ -81,7 +81,7 @@ CHECKS = {
          'protection names resolve to methods, only the fail policy raises and the partial encoder contains token errors, '
          'NFC precedes the loop, regex rules match in place, and the module-level encoder cache key covers every option.'),
    note='Agreement with an executable reference semantics on concrete strings is not decided; user callables/regexes are outside the rule.',
-   technique='AST path/shape analysis of the encoder main loop with per-helper consumption summaries; cache-key completeness; raise-site audit'),
+   technique='syntax-directed guarded-value enumeration of the encoder main loop and rule helpers (consumed length / replacement provenance per path), per-helper consumption summaries; cache-key completeness; raise-site audit'),
  'C13': dict(level='other', design='DESIGN.md section 5, C13',
    text=('Both built-in tables are evaluated entry by entry on every run (3745 entries: balanced braces, even unescaped $, no '
          'unescaped %, no \\begin/\\end, ASCII only; the ten active characters neutralised), and the protection methods, '
@@ -104,7 +104,7 @@ CHECKS = {
          'targets are tok.pos - len(pre_space) / tok.pos_end; the peeked whitespace is forwarded unchanged and wherever '
          'pre/post space is cut at an index the matching position is recomputed with the same index; longest-match specials.'),
    note='The concatenation identity over whole token sequences is a run-time statement and is not decided. Widths of four sites use reviewed lemmas (posi, environment name match, paragraph span, comment span).',
-   technique='affine normalisation of token spans, transitive self-write effect analysis, paired-truncation rule, shape rules on next/move methods'),
+   technique='affine normalisation of token spans, transitive self-write effect analysis, guarded-value enumeration (space/position coherence per structural path, scanner loop invariant, move targets per flag value)'),
  'C01': dict(level='other', design='DESIGN.md section 5, C01',
    text=('Span algebra at every node construction site: for each of the chars-node sites pos_end - pos - len(chars) is '
          'normalised (affine normaliser, reaching definitions, token-span lemma) and must be 0; comment/macro/specials nodes '
@@ -114,7 +114,7 @@ CHECKS = {
          'paired with position updates; tolerant recovery nodes agree with the resume point; node-list spans and '
          'latex_verbatim have the documented shape.'),
    note='That the spans produced by different cooperating parsers tile the input (no gap/overlap between siblings) is a run-time relation between sites and is not decided.',
-   technique='affine span normalisation at construction sites, def-use field forwarding, path-sensitive must-consume analysis of the token dispatcher, paired-truncation rule'),
+   technique='affine span normalisation at construction sites, def-use field forwarding, path-sensitive must-consume analysis of the token dispatcher, paired-truncation rule, guarded-value enumeration for pending-chars and verbatim put-back'),
  'C02': dict(level='other', design='DESIGN.md section 5, C02',
    text=('Decides the dispatch skeleton of the parser: every token kind the reader can emit has a handler in the collector '
          'and the expression parser and is routed to its parse_* method; every standard argument letter builds the parser of '
@@ -122,14 +122,14 @@ CHECKS = {
          'closer and content parsers require it; promoted delimiters are restored for children; absent optional arguments '
          'restore the reader including whitespace; default-table facts named by the property.'),
    note='Equality of the produced tree with the grammar derivation of the document is not decided.',
-   technique='AST exhaustiveness (emitted vs handled token kinds, signature letters vs branches), guard-fact analysis of closing predicates, table evaluation'),
+   technique='AST exhaustiveness (emitted vs handled token kinds, signature letters vs branches), guard-fact analysis of closing predicates, regex-AST analysis of the begin/end detector, table evaluation'),
  'C10': dict(level='other', design='DESIGN.md section 5, C10',
    text=('Decides where the mode of a node is determined: math parser contents state and recorded fields, walker events, '
          'per-argument/body deltas, default-table modes, delimiter choice in the token reader, plus two discipline rules '
          'over all parse functions (the given parsing_state is never re-bound; state factories return states derived from '
          'their argument, never a remembered one).'),
    note='Run-time inheritance of the mode through user-supplied child-state factories is not decided.',
-   technique='AST def-use of parsing-state flow (no re-binding, derived-from-argument), shape rules on math parser/events, table evaluation'),
+   technique='AST def-use of parsing-state flow (no re-binding, derived-from-argument), guarded-value enumeration of per-argument/body states (also through helper methods), shape rules on math parser/events, table evaluation'),
  'C05': dict(level='other', design='DESIGN.md sections 3 (E1, E3), 4 and 5 C05',
    text=('Exception-escape analysis (least fixpoint over the resolved call graph, strict configuration) of '
          'LatexWalker.parse_content over every parser class of the package: each escaping (exception class, raise site) '
@@ -148,7 +148,7 @@ CHECKS = {
          'can see a parse error, and mode non-interference: tolerant_parsing is read only inside error handling, so an '
          'error-free parse executes the same statements in both modes; plus G1-G9 on reachable functions.'),
    note='Termination is decided only through token-level progress; equality of trees on valid input follows from non-interference only for error-free runs.',
-   technique='exception-escape dataflow per configuration, def-use of the recovery hand-over, affine progress obligations, handler-order analysis'),
+   technique='exception-escape dataflow per configuration, def-use of the recovery hand-over, affine progress obligations, reader-position typestate along retry paths, sibling-exit agreement, handler-order analysis'),
  'C07': dict(level='other', design='DESIGN.md sections 3, 4 and 5 C07',
    text=('Escape analysis of latex_to_text, G1-G9 on every function reachable from it and from each replacement callable '
          'of the default table (module-level lambdas included), a node-kind typestate analysis of attribute reads in '
@@ -156,7 +156,7 @@ CHECKS = {
          'policy-key agreement, cross-table checks between spec classes, default tables and rendering code, callable '
          'signatures vs what apply_simplify_repl passes, None-guards on the legacy nodeargs view.'),
    note='Bounded running time and third-party simplify_repl callables are not decided.',
-   technique='exception-escape dataflow + crash-construct lints + node-kind typestate inference + evaluated default tables'),
+   technique='exception-escape dataflow + crash-construct lints (incl. value-set analysis of fixed-table keys) + node-kind typestate inference + evaluated default tables'),
  'C03': dict(level='other', design='DESIGN.md section 5, C03',
    text=('Thin, structural: the whitespace-policy presets are evaluated and compared with the documented semantics; '
          'every policy key read exists in every preset; node_to_text dispatches every concrete node class to its own '
@@ -173,7 +173,7 @@ CHECKS = {
          'tests (and letter-case completeness of a regex used there) and the argument count of accent macros are decided '
          'structurally.'),
    note='Neighbour effects between a replacement and adjacent characters under the protection schemes/whitespace policies are run-time string interactions and are not decided; the decoder is a model of latex2text restricted to table-driven constructs.',
-   technique='abstract evaluation of the declarative encode/decode tables (no repository code is run) + sibling-implementation cross-check'),
+   technique='abstract evaluation of the declarative encode/decode tables (no repository code is run) + sibling-implementation cross-check + checker-side evaluation of the protection predicates on probe literals'),
 }
 
 NOT_YET = {}
